@@ -177,6 +177,12 @@ func main() {
 				reqs = append(reqs, &gen.Req{Type: gen.RegKey(it, w.s.Name), Op: "ctor"})
 				qs = append(qs, q{w, "ctor"})
 			}
+			// an optional container / struct field with a declared default that was cleared (nil) reads as the default
+			switch w.t.Final().Kind {
+			case idl.List, idl.Set, idl.Map, idl.StructK:
+				reqs = append(reqs, &gen.Req{Type: gen.RegKey(it, w.s.Name), Op: "setget", Val: refsem.Obj().Set(2, refsem.Nil())})
+				qs = append(qs, q{w, "nil-getter"})
+			}
 			// an optional field holding a value different from its default reports itself as set
 			for _, other := range refsem.Domain(w.t, 1, true) {
 				if other != nil && other.T != "n" && refsem.Same(w.t, other, w.ev) != "" {
@@ -225,6 +231,17 @@ func main() {
 					}
 				}
 				if bad {
+					continue
+				}
+			case "nil-getter":
+				if g, ok := rs.Getters["2"]; ok {
+					if d := refsem.Same(w.t, w.ev, g); d != "" {
+						viol("getter-default-when-nil:"+w.name, fmt.Sprintf("%s: the optional field was set to nil; its getter returns something else than the declared default: %s (declared default / returned)", w.s.Name, d), w)
+						continue
+					}
+				}
+				if is, ok := rs.IsSet["2"]; ok && is {
+					viol("isset-true-for-nil:"+w.name, fmt.Sprintf("%s: optional field holds nil but IsSet is true", w.s.Name), w)
 					continue
 				}
 			case "isset":
